@@ -106,7 +106,7 @@ def check(prop, tier, seed):
                         known=sorted(known_hits))
     print("simworld: %s %s: %d cases, %d processes, %d distinct non-trivial, %d fault firings, %d forced GCs, %.1fs -> %s"
           % (prop, tier, tally.evaluations, tally.procs, len(tally.nontrivial), sum(tally.fired.values()),
-             tally.forced_gc, wall, "OK" if rc == 0 else ("VIOLATION" if rc == 1 else "HARNESS ERROR")), flush=True)
+             tally.forced_gc, wall, "OK" if rc == 0 else ("VIOLATION (%d failing cases seen)" % len(failures) if rc == 1 else "HARNESS ERROR")), flush=True)
     core.cleanup_scratch()
     return rc
 
